@@ -256,8 +256,8 @@ func genTaprootCoverage(g *core.Gen, r *core.Rand, keys []keyT, thin int) []case
 						continue
 					}
 					prog := rep(0x42, plen)
-					if ver == 1 && plen == 2 {
-						prog = []byte{0x4e, 0x73}
+					if plen == 2 && (ver == 1 || n%2 == 0) {
+						prog = []byte{0x4e, 0x73} // pay-to-anchor, and the same bytes under other versions
 					}
 					wp := cat([]byte{vb}, pushBytes(prog))
 					pk := wp
